@@ -1,5 +1,35 @@
 package main
 
+import (
+	"encoding/json"
+	"fmt"
+	"os"
+	"os/exec"
+	"path/filepath"
+	"sort"
+	"strings"
+	"sync"
+)
+
+// Variant is one self-test case: a textual edit of one repository file, applied in memory
+// (packages.Config.Overlay) — the disk is never touched.
+type Variant struct {
+	Name     string
+	Prop     string // property whose rule it exercises
+	Rule     string // rule expected to report (breaking) / stay silent (neutral)
+	File     string // path relative to the repository root
+	Old, New string // Old must occur exactly once in the current file, else the variant is stale
+	Edits    []Edit // further edits (other files or other places)
+	Breaking bool
+	Expect   string // substring expected in the reported construct key (breaking only)
+	Note     string
+}
+
+type Edit struct {
+	File     string
+	Old, New string
+}
+
 // SelfTestSummary is the result of the checker self-validation (thorough tier).
 type SelfTestSummary struct {
 	Breaking         int      `json:"mutants_breaking"`
@@ -11,6 +41,206 @@ type SelfTestSummary struct {
 	Details          []string `json:"details"`
 }
 
-func runSelfTest(pd *Property, seed int64) *SelfTestSummary { return &SelfTestSummary{} }
-func runMutantChild(name string) int                         { return 2 }
-func runSelfTestAll(seed int64) int                          { return 2 }
+type mutantResult struct {
+	Name      string   `json:"name"`
+	Stale     bool     `json:"stale"`
+	LoadError string   `json:"load_error,omitempty"`
+	Reported  []string `json:"reported"` // "rule|key|status" of violated/undecided obligations of the variant's rule
+	Others    []string `json:"others"`   // violations of other rules of the same property
+}
+
+func findVariant(name string) *Variant {
+	for i := range variants {
+		if variants[i].Name == name {
+			return &variants[i]
+		}
+	}
+	return nil
+}
+
+func (v *Variant) overlay(dir string) (map[string][]byte, bool) {
+	edits := append([]Edit{{v.File, v.Old, v.New}}, v.Edits...)
+	ov := map[string][]byte{}
+	for _, e := range edits {
+		path := filepath.Join(dir, e.File)
+		cur, ok := ov[path]
+		if !ok {
+			b, err := os.ReadFile(path)
+			if err != nil {
+				return nil, false
+			}
+			cur = b
+		}
+		s := string(cur)
+		if strings.Count(s, e.Old) != 1 {
+			return nil, false
+		}
+		ov[path] = []byte(strings.Replace(s, e.Old, e.New, 1))
+	}
+	return ov, true
+}
+
+// runMutantChild analyses one variant in this process and prints the result as JSON.
+func runMutantChild(name string) int {
+	v := findVariant(name)
+	if v == nil {
+		fmt.Fprintln(os.Stderr, "unknown variant", name)
+		return 2
+	}
+	res := mutantResult{Name: name}
+	ov, ok := v.overlay(repoDir())
+	if !ok {
+		res.Stale = true
+		b, _ := json.Marshal(res)
+		fmt.Println("MUTANT-RESULT " + string(b))
+		return 0
+	}
+	pd := findProperty(v.Prop)
+	if pd == nil {
+		fmt.Fprintln(os.Stderr, "unknown property", v.Prop)
+		return 2
+	}
+	one := *pd
+	one.Rules = nil
+	for _, r := range pd.Rules {
+		if r.ID == v.Rule {
+			one.Rules = append(one.Rules, r)
+		}
+	}
+	rep, _ := runOne(&one, LoadConfig{Overlay: ov}, "quick")
+	known, _ := loadKnown()
+	for _, o := range rep.Obs {
+		if o.Status != Violated && o.Status != Undecided {
+			continue
+		}
+		if o.Rule == "LOAD" {
+			res.LoadError = o.Why
+			continue
+		}
+		if known != nil && known.match(v.Prop, o) != nil {
+			continue
+		}
+		res.Reported = append(res.Reported, o.Rule+"|"+o.Key+"|"+o.Status.String())
+	}
+	b, _ := json.Marshal(res)
+	fmt.Println("MUTANT-RESULT " + string(b))
+	return 0
+}
+
+func runVariants(vs []*Variant, seed int64) *SelfTestSummary {
+	st := &SelfTestSummary{}
+	if len(vs) == 0 {
+		return st
+	}
+	// deterministic order, rotated by the seed
+	sort.Slice(vs, func(i, j int) bool { return vs[i].Name < vs[j].Name })
+	if seed != 0 {
+		k := int(uint64(seed) % uint64(len(vs)))
+		vs = append(vs[k:], vs[:k]...)
+	}
+	self, err := os.Executable()
+	if err != nil {
+		st.Failures = append(st.Failures, "cannot locate own executable: "+err.Error())
+		return st
+	}
+	results := make([]*mutantResult, len(vs))
+	errs := make([]string, len(vs))
+	sem := make(chan struct{}, 8)
+	var wg sync.WaitGroup
+	for i, v := range vs {
+		wg.Add(1)
+		go func(i int, v *Variant) {
+			defer wg.Done()
+			sem <- struct{}{}
+			defer func() { <-sem }()
+			cmd := exec.Command(self, "-mutant", v.Name)
+			cmd.Env = os.Environ()
+			out, err := cmd.CombinedOutput()
+			for _, line := range strings.Split(string(out), "\n") {
+				if strings.HasPrefix(line, "MUTANT-RESULT ") {
+					var r mutantResult
+					if json.Unmarshal([]byte(strings.TrimPrefix(line, "MUTANT-RESULT ")), &r) == nil {
+						results[i] = &r
+					}
+				}
+			}
+			if results[i] == nil {
+				errs[i] = fmt.Sprintf("variant %s: child failed: %v: %s", v.Name, err, tail(string(out), 300))
+			}
+		}(i, v)
+	}
+	wg.Wait()
+	for i, v := range vs {
+		r := results[i]
+		switch {
+		case r == nil:
+			st.Failures = append(st.Failures, errs[i])
+		case r.Stale:
+			st.Stale++
+			st.Details = append(st.Details, fmt.Sprintf("%s: stale (anchor text no longer present in the tree under test)", v.Name))
+		case r.LoadError != "":
+			st.Failures = append(st.Failures, fmt.Sprintf("variant %s does not type-check: %s", v.Name, tail(r.LoadError, 200)))
+		case v.Breaking:
+			st.Breaking++
+			hit := false
+			for _, rep := range r.Reported {
+				if strings.HasPrefix(rep, v.Rule+"|") && strings.Contains(rep, v.Expect) {
+					hit = true
+				}
+			}
+			if hit {
+				st.BreakingDetected++
+				st.Details = append(st.Details, fmt.Sprintf("%s: breaking, detected by %s (%s)", v.Name, v.Rule, strings.Join(r.Reported, "; ")))
+			} else {
+				st.Failures = append(st.Failures, fmt.Sprintf("breaking variant %s NOT reported by %s with key containing %q (reported: %v)", v.Name, v.Rule, v.Expect, r.Reported))
+			}
+		default:
+			st.Neutral++
+			if len(r.Reported) == 0 {
+				st.NeutralSilent++
+				st.Details = append(st.Details, fmt.Sprintf("%s: neutral, silent", v.Name))
+			} else {
+				st.Failures = append(st.Failures, fmt.Sprintf("neutral variant %s raised a false alarm: %v", v.Name, r.Reported))
+			}
+		}
+	}
+	return st
+}
+
+func tail(s string, n int) string {
+	s = strings.TrimSpace(s)
+	if len(s) > n {
+		return "…" + s[len(s)-n:]
+	}
+	return s
+}
+
+func runSelfTest(pd *Property, seed int64) *SelfTestSummary {
+	var vs []*Variant
+	for i := range variants {
+		if variants[i].Prop == pd.ID {
+			vs = append(vs, &variants[i])
+		}
+	}
+	return runVariants(vs, seed)
+}
+
+func runSelfTestAll(seed int64) int {
+	var vs []*Variant
+	for i := range variants {
+		vs = append(vs, &variants[i])
+	}
+	st := runVariants(vs, seed)
+	for _, d := range st.Details {
+		fmt.Println(d)
+	}
+	for _, f := range st.Failures {
+		fmt.Println("FAIL:", f)
+	}
+	fmt.Printf("self-test: breaking %d/%d detected, neutral %d/%d silent, %d stale, %d failures\n",
+		st.BreakingDetected, st.Breaking, st.NeutralSilent, st.Neutral, st.Stale, len(st.Failures))
+	if len(st.Failures) > 0 {
+		return 1
+	}
+	return 0
+}
